@@ -1,7 +1,7 @@
 (* One entry point for the OCaml runner: op name and byte-string arguments
    in, (result bytes, tag text) out.  All structure is decoded here, in Coq. *)
 From Coq Require Import NArith ZArith List Bool String.
-From GJ Require Import Base.Bytes Base.Show Model.Int Model.StrEnc Model.StrDec Model.Compact Model.Iface Model.Path Model.KeyBitmap Spec.Json Gen.Resets Model.Mem Base.TypeAddrBase Gen.TypeAddr Model.TypeCache Model.Stream Model.StreamInst Model.Enc Model.EncIndent Gen.Query Model.Query Model.Decode Model.EncTyped Model.Skip Model.PathEval.
+From GJ Require Import Base.Bytes Base.Show Model.Int Model.StrEnc Model.StrDec Model.Compact Model.Iface Model.Path Model.KeyBitmap Spec.Json Gen.Resets Model.Mem Base.TypeAddrBase Gen.TypeAddr Model.TypeCache Model.Stream Model.StreamInst Model.Enc Model.EncIndent Gen.Query Model.Query Model.Decode Model.EncTyped Model.Skip Model.PathEval Model.PathTags.
 Import ListNotations.
 Open Scope N_scope.
 Open Scope string_scope.
@@ -102,9 +102,9 @@ Definition dispatch (op : list N) (args : list (list N)) : list N * list N :=
   else if list_eqb op (str "c20.eval") then
     (* arg0: the path text, arg1: the document as a tree (wire format of Model/Enc.v) *)
     (match parse_jv (S (List.length (arg 1 args))) (arg 1 args) with
-     | Some (d, []) => extract_text (arg 0 args) d
-     | _ => str "unparsed"
-     end, [])
+     | Some (d, []) => (extract_text (arg 0 args) d, eval_tags (arg 0 args) d)
+     | _ => (str "unparsed", [])
+     end)
   else if list_eqb op (str "c20.hist") then
     (* arg0: the path text, arg1..: the documents one Path value meets, in order *)
     (let docs := map (fun a => parse_jv (S (List.length a)) a) (tl args) in
